@@ -129,12 +129,12 @@ def main(tier_):
     if quick:
         # every placement of the priority actions (moving a directory of the walk out of the root,
         # exchanging it with a staged directory / escaping link); a seeded sample of the rest
-        prio = [c for c in all_cases if c["meta"].get("prio") and c["meta"]["acts"][0]["act"] == "rename"]
+        prio = [c for c in all_cases if c["meta"].get("prio")]
         pid_ = {c["id"] for c in prio}
         rest = [c for c in all_cases if c["id"] not in pid_]
         rnd.shuffle(rest)
         rnd.shuffle(prio)
-        all_cases = prio[:3500] + rest[:1000]
+        all_cases = prio[:4500] + rest[:500]
         stats["prio_space"] = len(prio)
     # keep shards homogeneous in feature set
     all_cases.sort(key=lambda c: json.dumps(c["feat"]))
